@@ -11,7 +11,8 @@ LEVEL = 'exploration'
 DECIDING = ['get_type_grammar', 'get_type_keyword_sweep']
 RULE = ('(a) every statement kind of the verification grammar (SELECT, '
         'INSERT, UPDATE, DELETE, CREATE TABLE/VIEW/INDEX, CREATE OR REPLACE, '
-        'DROP, ALTER, WITH [RECURSIVE] ... SELECT/INSERT/UPDATE/DELETE) x '
+        'DROP, ALTER, WITH [RECURSIVE] ... SELECT/INSERT/UPDATE/DELETE with '
+        'plain / quoted CTE names and optional column lists) x '
         'prefix of whitespace and comments x keyword casing x inner '
         'whitespace of multi-word keywords x layout; (b) every word the '
         'keyword tables type DML or DDL, plus other keywords, names, quoted '
